@@ -32,13 +32,18 @@ type Op struct {
 	// it holds, or storing one read-only slice from several goroutines); the
 	// cache must only read the value it is given.
 	Shared int `json:"sh,omitempty"`
+	// Pad (sets only): extra bytes in the value, so that elements differ in
+	// size (conf 4).
+	Pad int `json:"pad,omitempty"`
 }
 
 // Case is a concurrent program.
 type Case struct {
 	// Conf: 0 unbounded without LRU, 1 unbounded with LRU (list relinked on
 	// every Get), 2 LRU bounded by MaxCount with a recording OnDelete,
-	// 3 bounded without LRU (integrity and bounds only).
+	// 3 bounded without LRU (integrity and bounds only), 4 LRU bounded by
+	// both MaxCount and MaxSize with a recording (and yielding) OnDelete and
+	// values of different sizes.
 	Conf     int    `json:"conf"`
 	MaxCount uint   `json:"max_count"`
 	MaxSize  uint   `json:"max_size"`
@@ -62,8 +67,11 @@ func keyName(i int) string {
 	return "key" + strconv.Itoa(i)
 }
 
-func makeValue(key string, g, seq int) []byte {
+func makeValue(key string, g, seq int, pad ...int) []byte {
 	body := key + "|" + strconv.Itoa(g) + "|" + strconv.Itoa(seq)
+	if len(pad) > 0 && pad[0] > 0 {
+		body += "|" + strings.Repeat("p", pad[0])
+	}
 	return []byte(body + "|" + strconv.FormatUint(uint64(crc32.ChecksumIEEE([]byte(body))), 16))
 }
 
@@ -162,12 +170,16 @@ func registerModel(evicting bool) porcupine.Model {
 }
 
 type evicted struct {
-	mu   sync.Mutex
-	bad  string
-	seen int
+	mu    sync.Mutex
+	bad   string
+	seen  int
+	yield bool // let other goroutines run inside the callback window
 }
 
 func (e *evicted) onDelete(k, v []byte) {
+	if e.yield {
+		runtime.Gosched()
+	}
 	e.mu.Lock()
 	defer e.mu.Unlock()
 	e.seen++
@@ -199,6 +211,12 @@ func execute(c Case) (res execResult, err error) {
 		conf.MaxCount = c.MaxCount
 		conf.MaxSize = c.MaxSize
 		conf.MaxElementSize = c.MaxElem
+	case 4:
+		conf.EnableLRU = true
+		conf.MaxCount = c.MaxCount
+		conf.MaxSize = c.MaxSize
+		conf.OnDelete = ev.onDelete
+		ev.yield = true
 	}
 	ch := cache.New(conf)
 	shared := make([][3][]byte, max(1, c.Keys))
@@ -236,7 +254,7 @@ func execute(c Case) (res execResult, err error) {
 				call := clock.Add(1)
 				switch op.Kind {
 				case "set":
-					v := makeValue(key, g, seq)
+					v := makeValue(key, g, seq, op.Pad)
 					if op.Shared > 0 {
 						v = shared[op.Key%len(shared)][(op.Shared-1)%3]
 					}
@@ -297,6 +315,9 @@ func execute(c Case) (res execResult, err error) {
 	}
 	if conf.MaxCount != 0 && uint(s.Count) > conf.MaxCount {
 		return res, fmt.Errorf("after quiescence Count = %d exceeds MaxCount = %d", s.Count, conf.MaxCount)
+	}
+	if conf.MaxSize != 0 && uint(s.Size) > conf.MaxSize {
+		return res, fmt.Errorf("after quiescence Size = %d exceeds MaxSize = %d", s.Size, conf.MaxSize)
 	}
 	size, count := 0, 0
 	for k := -2; k < c.Keys; k++ { // (-2, -1: the two over-long keys, storable only without size limits)
@@ -387,8 +408,8 @@ func checkProgram(c Case) error {
 			vp.Class("execution:with-evictions")
 		}
 		nontrivial = nontrivial || res.overlapKey || res.overlapAll
-		if c.Conf <= 2 {
-			result, info := porcupine.CheckOperationsVerbose(registerModel(c.Conf == 2), res.history, 5*time.Second)
+		if c.Conf <= 2 || c.Conf == 4 {
+			result, info := porcupine.CheckOperationsVerbose(registerModel(c.Conf == 2 || c.Conf == 4), res.history, 5*time.Second)
 			switch result {
 			case porcupine.Illegal:
 				_ = info
@@ -424,7 +445,7 @@ var programProp = vp.Register(vp.Prop[Case]{
 	Kind: "c10.program", Base: 1500,
 	Gen: func(t *rapid.T) Case {
 		c := Case{
-			Conf:  rapid.SampledFrom([]int{0, 1, 1, 2, 2, 2, 3}).Draw(t, "conf"),
+			Conf:  rapid.SampledFrom([]int{0, 1, 1, 2, 2, 2, 3, 4, 4}).Draw(t, "conf"),
 			Keys:  rapid.IntRange(1, 4).Draw(t, "keys"),
 			Procs: rapid.SampledFrom([]int{2, 4, 16}).Draw(t, "procs"),
 			Reps:  map[bool]int{false: 3, true: 12}[vp.Thorough()],
@@ -436,6 +457,13 @@ var programProp = vp.Register(vp.Prop[Case]{
 			c.Twins = rapid.IntRange(1, 2).Draw(t, "ntwins")
 		}
 		longKeys := false
+		if c.Conf == 4 {
+			// Every single element fits (at most 4+~20+1+70 bytes), two large
+			// ones may not.
+			c.Keys = rapid.IntRange(3, 6).Draw(t, "keys4")
+			c.MaxCount = uint(rapid.IntRange(2, 4).Draw(t, "maxcount4"))
+			c.MaxSize = uint(rapid.SampledFrom([]int{100, 130, 160, 220}).Draw(t, "maxsize4"))
+		}
 		if c.Conf == 3 {
 			c.MaxSize = uint(rapid.SampledFrom([]int{0, 30, 60}).Draw(t, "maxsize"))
 			c.MaxElem = uint(rapid.SampledFrom([]int{0, 0, 25, 40}).Draw(t, "maxelem"))
@@ -457,6 +485,10 @@ var programProp = vp.Register(vp.Prop[Case]{
 				}
 				if longKeys && rapid.IntRange(0, 5).Draw(t, "longkey") == 0 {
 					prog[j].Key = -1 - rapid.IntRange(0, 1).Draw(t, "which") // a key longer than any limit
+				}
+				if c.Conf == 4 && prog[j].Kind == "set" {
+					prog[j].Pad = rapid.SampledFrom([]int{0, 0, 1, 30, 60, 70}).Draw(t, "pad")
+					continue
 				}
 				if prog[j].Kind == "set" && prog[j].Key >= 0 && rapid.IntRange(0, 3).Draw(t, "shared") == 0 {
 					prog[j].Shared = rapid.IntRange(1, 3).Draw(t, "slot")
